@@ -21,7 +21,7 @@ Proof.
   induction ds as [|d ds IH]; intros g acc; cbn [read_decs].
   - reflexivity.
   - destruct (df_prec d <? 1); [reflexivity|].
-    cbn [set_prec prec]. rewrite IH.
+    cbn [set_prec add_flags prec]. rewrite IH.
     clear. revert acc. generalize (scaleb (df_prec d) (create_decimal (df_prec d) (df_unscaled d)) (df_scale d)).
     intros y acc. revert g acc y. induction ds as [|e ds IH]; intros g acc y; cbn [read_decs].
     + reflexivity.
@@ -98,6 +98,20 @@ Proof.
     + apply IH.
 Qed.
 
+(** flags are sticky *)
+Lemma read_decs_flags_monotone :
+  forall v ds g acc,
+    (inexact g = true -> inexact (fst (read_decs v g ds acc)) = true) /\
+    (rounded g = true -> rounded (fst (read_decs v g ds acc)) = true).
+Proof.
+  intros v ds. induction ds as [|d ds IH]; intros g acc; cbn [read_decs].
+  - auto.
+  - destruct (df_prec d <? 1); [auto|]. destruct v.
+    + match goal with |- context [read_decs Current ?g3 ds ?a] => destruct (IH g3 a) as [H1 H2] end.
+      split; intros H; [apply H1|apply H2]; cbn; rewrite H; reflexivity.
+    + apply IH.
+Qed.
+
 Lemma read_decs_fixed_frame :
   forall ds g acc, fst (read_decs Fixed g ds acc) = g.
 Proof.
@@ -106,21 +120,26 @@ Proof.
   - destruct (df_prec d <? 1); [reflexivity|]. apply IH.
 Qed.
 
-(** an API step changes the shared state at most in [prec] *)
+(** an API step changes the shared state at most in the cells of the decimal context:
+    [prec] and the two sticky flags *)
 Lemma frame_v :
-  forall v g c, exists p, fst (api_step_v v g c) = set_prec g p.
+  forall v g c, exists p i r, fst (api_step_v v g c) = mkG p i r (other g).
 Proof.
-  intros v g c. exists (prec (fst (api_step_v v g c))).
+  intros v g c.
   pose proof (read_decs_other v (effects c) g []) as H. rewrite <- api_step_fst in H.
-  destruct (fst (api_step_v v g c)) as [p o]. cbn in *. unfold set_prec. congruence.
+  destruct (fst (api_step_v v g c)) as [p i r o]. cbn in *. exists p, i, r. congruence.
 Qed.
 
 Lemma frame :
-  forall g c, other (fst (api_step g c)) = other g /\ exists p, fst (api_step g c) = set_prec g p.
+  forall g c, other (fst (api_step g c)) = other g /\
+              (exists p i r, fst (api_step g c) = mkG p i r (other g)) /\
+              (inexact g = true -> inexact (fst (api_step g c)) = true) /\
+              (rounded g = true -> rounded (fst (api_step g c)) = true).
 Proof.
-  intros g c. split.
+  intros g c. split; [|split].
   - unfold api_step, api_step_current. rewrite api_step_fst. apply read_decs_other.
   - apply frame_v.
+  - unfold api_step, api_step_current. rewrite api_step_fst. apply read_decs_flags_monotone.
 Qed.
 
 (** the repaired code changes nothing at all *)
